@@ -32,12 +32,13 @@ def main():
     ap.add_argument("worktree")
     ap.add_argument("pid")
     ap.add_argument("--checks", default=None)
+    ap.add_argument("--no-copy", action="store_true", help="keep the files already in /verif/seeded/<name>/ (e.g. a ported patch)")
     a = ap.parse_args()
     src = os.path.join(a.worktree, "_seed")
     dst = os.path.join(VERIF, "seeded", a.name)
     os.makedirs(dst, exist_ok=True)
     for fn in ("patch.diff", "demo.py", "meta.json"):
-        if os.path.exists(os.path.join(src, fn)):
+        if not a.no_copy and os.path.exists(os.path.join(src, fn)):
             shutil.copy(os.path.join(src, fn), os.path.join(dst, fn))
     meta_p = os.path.join(dst, "meta.json")
     try:
